@@ -5,6 +5,8 @@ import SciVerif.Tie.Pins
 /-! Tie A obligations for C04: the port and task-creation code has the shape the channel and
 task-creation models assume. -/
 namespace SciVerif.Tie
+-- functions the model relies on without an obligation of its own naming them (pinned by bin/mkpins):
+-- PIN-ALSO: Scipipe.InPort_Recv Scipipe.InParamPort_Recv Scipipe.InPort_From Scipipe.InParamPort_From Scipipe.OutPort_To Scipipe.OutParamPort_To Scipipe.InPort_AddRemotePort Scipipe.OutPort_AddRemotePort Scipipe.InParamPort_AddRemotePort Scipipe.OutParamPort_AddRemotePort Scipipe.InPort_removeRemotePort Scipipe.OutPort_removeRemotePort Scipipe.BaseProcess_CloseAllOutPorts Scipipe.BaseProcess_CloseOutParamPorts Scipipe.getBufsize Scipipe.NewOutPort Scipipe.NewOutParamPort Scipipe.InParamPort_FromStr
 open SciVerif.Generated
 
 def noEarlyExit (l : List Atom) : Bool := count (fun a => a.kind == .break_ || a.kind == .ret_ || a.kind == .goto_) l == 0
@@ -56,29 +58,48 @@ theorem generated_round_shape :
 theorem generated_proc_sem_good_c04 : Proc.good procSem := by decide
 
 
+
 -- BEGIN PINS (written by bin/mkpins; do not edit by hand)
 /-- the Go functions this property's model and obligations were written against have exactly the
 pinned skeletons (SHA-256 prefix of the atom list) -/
 theorem pinned_skeletons_c04 :
     pinsOk
-    [("Scipipe.BaseProcess_CloseOutPorts", "be86bddf379df111"),
+    [("Scipipe.BaseProcess_CloseAllOutPorts", "50efd798f96bd05b"),
+     ("Scipipe.BaseProcess_CloseOutParamPorts", "b55e88685818f821"),
+     ("Scipipe.BaseProcess_CloseOutPorts", "be86bddf379df111"),
      ("Scipipe.BaseProcess_receiveOnInParamPorts", "80f48a9a3ce80c41"),
      ("Scipipe.BaseProcess_receiveOnInPorts", "fc9972cf4f754181"),
      ("Scipipe.FinalizePaths", "291fc0cefa37cea9"),
+     ("Scipipe.InParamPort_AddRemotePort", "3305ddf163d24713"),
      ("Scipipe.InParamPort_CloseConnection", "0b1304b246603bb9"),
+     ("Scipipe.InParamPort_From", "91dcfa2a5059be8c"),
+     ("Scipipe.InParamPort_FromStr", "82f932a5d19fe28f"),
+     ("Scipipe.InParamPort_Recv", "118dc198fdd7a631"),
      ("Scipipe.InParamPort_Send", "4622aa49739ca34b"),
+     ("Scipipe.InPort_AddRemotePort", "2b23c2eefc8a18f5"),
      ("Scipipe.InPort_CloseConnection", "19d2a9417eaebec1"),
+     ("Scipipe.InPort_From", "39357be56d46a631"),
+     ("Scipipe.InPort_Recv", "e48def2c3f368dd0"),
      ("Scipipe.InPort_Send", "62cb51bf3ab53084"),
+     ("Scipipe.InPort_removeRemotePort", "7b8fd26a958e69e5"),
      ("Scipipe.NewInParamPort", "987eb734aafc07fd"),
      ("Scipipe.NewInPort", "7ed3bbccc81e8535"),
+     ("Scipipe.NewOutParamPort", "9934e9f3149ad37e"),
+     ("Scipipe.NewOutPort", "fc9bc8de2927b9b5"),
+     ("Scipipe.OutParamPort_AddRemotePort", "d1ae040a8ec1308b"),
      ("Scipipe.OutParamPort_Close", "601ec3b610e0f2df"),
      ("Scipipe.OutParamPort_Send", "001f43b441bb5996"),
+     ("Scipipe.OutParamPort_To", "62d0c49416911f20"),
+     ("Scipipe.OutPort_AddRemotePort", "711a5e501451ebce"),
      ("Scipipe.OutPort_Close", "82e44734c725a956"),
      ("Scipipe.OutPort_Send", "06287c7bef096378"),
+     ("Scipipe.OutPort_To", "39357be56d46a631"),
+     ("Scipipe.OutPort_removeRemotePort", "7b8fd26a958e69e5"),
      ("Scipipe.Process_Run", "05880ea16e590fb1"),
      ("Scipipe.Process_createTasks", "8c856d9ef4492f5d"),
      ("Scipipe.Task_Execute", "40fd1fec0c69deb2"),
      ("Scipipe.Task_writeAuditLogs", "5ee6e36ed2566be6"),
+     ("Scipipe.getBufsize", "65b7d390dc0d0c72"),
      ("Scipipe.taskQueue_NextTaskDone", "749f6263d8a0c13f")] = true := by decide
 -- END PINS
 
